@@ -16,7 +16,7 @@ func init() { Register("C11", runC11) }
 func runC11(r *mon.Run) {
 	n := bigN
 	pmn := new(big.Int).Sub(bigP, bigN)
-	for _, c := range []string{"c11:honest", "c11:r<p-n,bit1,on-curve", "c11:r<p-n,bit1,off-curve", "c11:r>=p-n,bit1", "c11:r-not-x-coordinate", "c11:Q=infinity", "c11:r=0", "c11:s=0",
+	for _, c := range []string{"c11:honest", "c11:r<p-n,bit1,on-curve", "c11:r<p-n,bit1,off-curve", "c11:r>=p-n,bit1", "c11:r>=p-n,bit1,wraps-to-curve-x", "c11:r-not-x-coordinate", "c11:Q=infinity", "c11:r=0", "c11:s=0",
 		"c11:id>=4", "c11:digest<32", "c11:digest>32", "c11:recovered", "c11:failed", "c11:x(R)>=n-valid"} {
 		r.Require(c)
 	}
@@ -60,6 +60,21 @@ func runC11(r *mon.Run) {
 		case 3:
 			rr = new(big.Int).Add(pmn, rng.Below(new(big.Int).Sub(n, pmn)))
 			ss, dig, cl = nonzero(rng.Below(n)), rng.Bytes(32), "r>=p-n,bit1"
+			if rng.Bool() {
+				// r = p - n + delta with delta a (small) x-coordinate ON the curve:
+				// r + n = p + delta, which an implementation that reduces mod p
+				// instead of rejecting turns into the valid x-coordinate delta.
+				var small []*big.Int
+				for _, sp := range specials {
+					if sp.P.X.BitLen() <= 32 {
+						small = append(small, sp.P.X)
+					}
+				}
+				if len(small) > 0 {
+					rr = new(big.Int).Add(pmn, small[rng.Intn(len(small))])
+					cl = "r>=p-n,bit1,wraps-to-curve-x"
+				}
+			}
 			ids = []int{2, 3, 0, 1}
 		case 4:
 			rr = oracle.Mod(nonResidueX(rng.Below(bigP)), n)
